@@ -184,3 +184,50 @@ Definition df_opts : list opt :=
 Definition df_argv : list (list ascii) := [["p"]; ["-"; "a"; "b"]; ["x"]]%char.
 Lemma double_free_reachable : p_ub (cmd_parse df_opts false (Some df_argv)) = true.
 Proof. vm_compute. reflexivity. Qed.
+
+(* ------------------------------------------------------------------------ *)
+(* the statements of Properties_C39.v *)
+Lemma P_parse_queries : forall opts p occs name,
+  p_params p = reported occs ->
+  match find_option opts name with
+  | Some k =>
+      let mine := filter (fun o => Nat.eqb (oc_k o) k) occs in
+      get_ninsts opts p name = length mine /\
+      forall inst idx,
+        get_param opts p name inst idx =
+          if idx <? np_of opts k
+          then match nth_error mine inst with Some o => Some (get (oc_ps o) idx) | None => None end
+          else None
+  | None => get_ninsts opts p name = 0 /\ forall inst idx, get_param opts p name inst idx = None
+  end.
+Proof.
+  intros opts p occs name Hp. destruct (find_option opts name) as [k|] eqn:Hf.
+  - now apply queries_wf.
+  - split; [now apply (queries_unknown opts p name 0 0) | intros; now apply queries_unknown].
+Qed.
+Lemma P_double_free_refuted : exists opts ign av, p_ub (cmd_parse opts ign (Some av)) = true.
+Proof. exists df_opts, false, df_argv. exact double_free_reachable. Qed.
+
+Local Open Scope char_scope.
+Lemma P_example :
+  argv_split [","; "a"; ","; ","; "b"; ","] "," = Some [["a"]; ["b"]] /\
+  argv_split_with_empty ["a"; ","; "b"; ","; ","] "," = Some [["a"]; ["b"]; []] /\
+  argv_join (Some [["a"]; []; ["b"]]) "," = ["a"; ","; ","; "b"] /\
+  argv_insert (Some [["a"]; ["b"]; ["c"]]) 1 (Some [["x"]; ["y"]]) =
+    (RC_SUCCESS, Some [["a"]; ["x"]; ["y"]; ["b"]; ["c"]]) /\
+  argv_delete 5 (Some [["a"]; ["x"]; ["y"]; ["b"]; ["c"]]) 1 2 = (RC_SUCCESS, 3%Z, Some [["a"]; ["b"]; ["c"]]) /\
+  let opts := [mk_opt "a" None (Some ["a"; "l"]) 2; mk_opt "b" None (Some ["b"; "e"; "t"; "a"]) 0] in
+  let occs := [mk_occ ["-"; "a"] 0 [["1"]; ["2"]]; mk_occ ["-"; "-"; "b"; "e"; "t"; "a"] 1 []] in
+  Forall (wf_occ opts) occs /\ wf_end (E_dashdash [["t"]]) /\
+  p_params (cmd_parse opts false (Some (["p"] :: render occs ++ render_end (E_dashdash [["t"]])))) =
+    [(0, [["1"]; ["2"]]); (1, [])].
+Proof.
+  do 5 (split; [vm_compute; reflexivity|]).
+  intros opts occs. split; [|split; [exact I | vm_compute; reflexivity]].
+  constructor; [|constructor; [|constructor]].
+  - split; [|split; [reflexivity|]].
+    + split; [discriminate|]. right. exists ["a"]. repeat split.
+    + repeat constructor; discriminate.
+  - split; [|split; [reflexivity | constructor]].
+    split; [discriminate|]. left. exists ["b"; "e"; "t"; "a"]. repeat split.
+Qed.
